@@ -171,7 +171,7 @@ pub struct Sx {
 
 impl Sx {
     pub fn new(exact: bool, fill: u64, roomy_bytes: usize) -> Sx {
-        Sx { exact, fill, roomy: ScratchOwned::<B>::alloc(roomy_bytes), buf: vec![], off: 0, len: 0, guard_damaged: false, windows: 0, nonzero_windows: 0 }
+        Sx { exact, fill, roomy: pzv_be::dirty_scratch::<B>(roomy_bytes), buf: vec![], off: 0, len: 0, guard_damaged: false, windows: 0, nonzero_windows: 0 }
     }
     fn check_guards(&mut self) {
         if self.buf.is_empty() {
